@@ -36,6 +36,15 @@ CLAIMED['C14'] = dict(
     note='Trusted: Lean kernel; CPython pickler/unpickler and json (modelled, cross-validated, not verified). JSON text validity and numpy payloads are observed only. '
          'Known finding F11 (JSON + opcodes with builtin json).',
     technique='Lean 4 proof (decode . encode = id by mutual structural induction) + two-way differential correspondence')
+CLAIMED['C09'] = dict(
+    text='Lean 4 theorems over a character-level model of _path_to_elements/_add_to_elements/stringify_element/stringify_path: for key sequences of any length '
+         'over SafeKeys (strings with arbitrary characters except both quote kinds together or U+1D1C0; ints, floats, None, bools) the parser recovers exactly the '
+         'key sequence with GET actions, extract reaches the denoted location, and stringify_path (GET root) inverts parse_path. literal_eval/repr are parameters '
+         '(assumptions LE/RE); the driver instance is proved to satisfy LE and compared with the real literal_eval. Correspondence: real reported paths, parse results '
+         'and stringify results vs the compiled model on exhaustive short hostile strings and random deep sequences; boundary witnesses are Lean theorems + known findings.',
+    design='5/C09',
+    note='Trusted: Lean kernel; ast.literal_eval/repr (assumptions LE/RE, checked on the alphabet). The tree list-form path and object identity are observed on the implementation only.',
+    technique='Lean 4 proof (fold induction over the character machine) + differential correspondence')
 NA = {}
 
 checks = []
